@@ -189,6 +189,9 @@ type BuildOpts struct {
 	Introduce  bool // every router knows every other router's identity beforehand
 	FakeTun    bool
 	ConfigEdit func(i int, st *config.Store)
+	// LiteNodes run in lite mode (config router.lite); every link towards them reports a lite peer, as the
+	// handshake would have told the other end.
+	LiteNodes map[int]bool
 }
 
 // Build creates a mesh for the topology with the given identities.
@@ -203,6 +206,9 @@ func Build(r *rand.Rand, t *Topology, ids []*m.Address, o BuildOpts) (*Mesh, err
 				st.Router.IANA = append(st.Router.IANA, strings.Repeat("x", n))
 				rem -= n
 			}
+		}
+		if o.LiteNodes[i] {
+			st.Router.Lite = true
 		}
 		if o.ConfigEdit != nil {
 			o.ConfigEdit(i, &st)
@@ -234,6 +240,12 @@ func Build(r *rand.Rand, t *Topology, ids []*m.Address, o BuildOpts) (*Mesh, err
 	for _, e := range t.Edges {
 		if err := ms.Connect(e[0], e[1], pick(e[0]), pick(e[1])); err != nil {
 			return nil, err
+		}
+		if o.LiteNodes[e[1]] {
+			ms.Nodes[e[0]].Links[e[1]].lite = true
+		}
+		if o.LiteNodes[e[0]] {
+			ms.Nodes[e[1]].Links[e[0]].lite = true
 		}
 	}
 	if o.Introduce {
